@@ -161,16 +161,27 @@ func findEndTime(moov *mp4.MoovBox, durationMS int) (endTime, endTimescale uint6
 	stss := stbl.Stss
 	if stss != nil {
 		foundSyncFrame := false
-		for sampleNr := lastSampleNr; sampleNr <= stss.SampleNumber[len(stss.SampleNumber)-1]; sampleNr++ {
-			if stss.IsSyncSample(sampleNr) {
-				lastSampleNr = sampleNr - 1
-				foundSyncFrame = true
-				break
+		if len(stss.SampleNumber) > 0 {
+			for sampleNr := lastSampleNr; sampleNr <= stss.SampleNumber[len(stss.SampleNumber)-1]; sampleNr++ {
+				if stss.IsSyncSample(sampleNr) {
+					lastSampleNr = sampleNr - 1
+					foundSyncFrame = true
+					break
+				}
 			}
 		}
 		if !foundSyncFrame {
 			return 0, 0, fmt.Errorf("did not find any syncframe at or after time")
 		}
+	} else {
+		// All samples are sync samples, so the sample found is the first one not to be included
+		if lastSampleNr > stbl.Stsz.GetNrSamples() {
+			return 0, 0, fmt.Errorf("did not find any sample starting at or after time")
+		}
+		lastSampleNr--
+	}
+	if lastSampleNr == 0 {
+		return 0, 0, fmt.Errorf("duration %dms is too short to include any sample", durationMS)
 	}
 	lastTime, lastDur := stts.GetDecodeTime(lastSampleNr)
 	endTime = lastTime + uint64(lastDur)
@@ -238,6 +249,9 @@ func findTrakEnds(traks []*mp4.TrakBox, endTime, endTimescale uint64) (map[uint3
 			return nil, err
 		}
 		endSampleNr--
+		if endSampleNr == 0 {
+			return nil, fmt.Errorf("track %d has no sample before the end time", trackID)
+		}
 		to.lastSampleNr = endSampleNr
 		decTime, dur := stts.GetDecodeTime(endSampleNr)
 		trackEndTime = decTime + uint64(dur)
